@@ -149,6 +149,26 @@ _scope(
 )
 
 
+# 8. unusual but legal inputs
+_SENT = I("urn:x-rdflib:default")  # equals rdflib's default-graph sentinel; an ordinary IRI here
+_scope(
+    "odd",
+    [
+        (B("a b"), _SENT, L("x", "EN-gb")),
+        (B("_:x"), AP, L("x", "en-GB")),
+        (_SENT, AP, L("", None, XSD_STRING)),
+        (B("é"), AP, L("x", "EN")),
+        (AX, AP, L("x", None, XSD_STRING + " ")),
+        (B(""), I(""), L("\x00\n\t\"")),
+    ],
+    [(8, 0, 1), (8, 1, 1), (8, 2, 2), (4000, 150, 32)],
+    generic_only=True,
+    gnames=[_SENT, DEFAULT, B("a b"), L("g", "EN"), DEFAULT, I("")],
+    note="language tags differing in case, odd blank-node labels, control characters, the IRI "
+         "that rdflib uses as default-graph sentinel, a datatype that is almost xsd:string",
+)
+
+
 def triples(scope: str) -> list:
     return SCOPES[scope]["triples"]
 
